@@ -1,7 +1,7 @@
 """C05  Type conversions on assignment preserve the value or are rejected.
 
 Bounded-exhaustive matrix: every ordered pair (source, target) over {Bit, bool, BitVector[n], Unsigned[n], Signed[n]}
-(n in 1..3; thorough 1..4), integer / Null / Full / bool literals as sources, x every assignment form
+(n in 1..3; thorough 1..5), integer / Null / Full / bool literals as sources, x every assignment form
 {<<= concurrent, .next, <<= sequential, @= variable, .value, ^= push, .push, slice target, element target,
 sub-entity port connection, function-return merge, if-expression merge, Signal initialisation (literals)}.
 One design per (pair, form); every accepted design is simulated (vsim) for EVERY source value.
@@ -287,7 +287,7 @@ def work(tasks):
 
 
 def main(run: Run):
-    maxw = 4 if run.thorough else 3
+    maxw = 5 if run.thorough else 3
     T = types(maxw)
     tasks = []
     for s in T:
